@@ -69,6 +69,19 @@ def check_routing(ctx, cirq, nx, n):
                 ops.append(gate.on(*rng.sample(logical, 2)).with_tags(('id', k + 1)))
             else:
                 ops.append(gen.one_qubit_gate(cirq, rng).on(rng.choice(logical)).with_tags(('id', k + 1)))
+        if rng.random() < 0.3:
+            # measurements and the operations they control: routing must keep every operation after the measurement it depends on
+            nk = 0
+            for k in range(len(ops), len(ops) + rng.randint(2, 5)):
+                r_ = rng.random()
+                if r_ < 0.45 or nk == 0:
+                    ops.append(cirq.measure(rng.choice(logical), key=f'k{nk}').with_tags(('id', k + 1)))
+                    nk += 1
+                elif r_ < 0.8:
+                    ops.append(rng.choice([cirq.X, cirq.Z, cirq.H])(rng.choice(logical)).with_classical_controls(f'k{rng.randrange(nk)}').with_tags(('id', k + 1)))
+                else:
+                    ops.append(rng.choice([cirq.CZ, cirq.CNOT])(*rng.sample(logical, 2)).with_tags(('id', k + 1)))
+            ctx.count('route_stream', 'measured')
         circuit = cirq.Circuit(ops)
         used = sorted(circuit.all_qubits())
         router = cirq.RouteCQC(g)
@@ -117,8 +130,11 @@ def check_routing(ctx, cirq, nx, n):
                 ident = [t[1] for t in o.tags if isinstance(t, tuple) and t and t[0] == 'id']
                 events.append({'id': ident[0] if ident else 0, 'physical': [pidx[q] for q in o.qubits]})
         out = ctx.driver.ask([{'p': 'C07', 'op': 'replay', 'l2p': l2p_full, 'events': events}])[0]
-        back = [{'id': o['id'], 'wires': o['qubits']} for o in out['ops']]
-        orig = [{'id': [t[1] for t in o.tags if isinstance(t, tuple)][0], 'wires': [lidx[q] for q in o.qubits]} for o in circuit.all_operations()]
+        # measurement / control keys are wires too (numbered after the qubits); they do not move with the qubit mapping
+        key_names = sorted({str(k) for o in circuit.all_operations() for k in (cirq.measurement_key_objs(o) | cirq.control_keys(o))})
+        key_wires = {[t[1] for t in o.tags if isinstance(t, tuple)][0]: [1000 + key_names.index(str(k)) for k in sorted(cirq.measurement_key_objs(o) | cirq.control_keys(o), key=str)] for o in circuit.all_operations()}
+        back = [{'id': o['id'], 'wires': o['qubits'] + key_wires.get(o['id'], [])} for o in out['ops']]
+        orig = [{'id': [t[1] for t in o.tags if isinstance(t, tuple)][0], 'wires': [lidx[q] for q in o.qubits] + key_wires[[t[1] for t in o.tags if isinstance(t, tuple)][0]]} for o in circuit.all_operations()]
         # (gates with interchangeable qubits may be placed with their qubits exchanged: compare the wire sets per operation and the per-wire order)
         back_n = [{'id': o['id'], 'wires': sorted(o['wires'])} for o in back]
         orig_n = [{'id': o['id'], 'wires': sorted(o['wires'])} for o in orig]
@@ -140,7 +156,7 @@ def check_routing(ctx, cirq, nx, n):
             ctx.report_witness('route:swap-map', 'the reported swap map is not the permutation accumulated by the inserted SWAPs', dict(rep, impl_out=[{repr(k): repr(v) for k, v in swap_map.items()}], spec_out=[{repr(k): repr(v) for k, v in want_swap.items()}]))
             continue
         # 4. numerically: routed circuit followed by the inverse permutation = original on its initial places
-        if len(phys) <= 6:
+        if len(phys) <= 6 and not key_names:
             mapped = circuit.transform_qubits(lambda q: init_map[q])
             perm_back = []
             # undo: content now at swap_map[p] goes back to p
